@@ -660,6 +660,12 @@ def run_frozen(case):
             return out.fail('c17.frozen.' + name.split('(')[0], '%s of %r -> %r, expected FrozenDict(%r)' % (name, fd, r, exp))
         if dict(fd) != snapshot:
             return out.fail('c17.frozen.mutated', 'FrozenDict changed by %s' % name)
+        # the new instance hashes by ITS content - hash() was already attempted on the original above (with or without success),
+        # and nothing of that may carry over: same outcome as for an equal FrozenDict built from scratch
+        ha, hb = _call(hash, r[1]), _call(hash, FrozenDict(exp))
+        if ha[:2] != hb[:2]:
+            return out.fail('c17.frozen.hash', 'x = %s of %r (hash() was tried on the original before): hash(x) -> %r, but the equal FrozenDict(%r) built from scratch -> %r' % (
+                name, fd, ha[:2], exp, hb[:2]))
         if exp == snapshot:
             if not (r[1] == fd):
                 return out.fail('c17.frozen.' + name.split('(')[0], '%s result != original' % name)
